@@ -9,6 +9,7 @@ import (
 	"encoding/json"
 	"fmt"
 	"os"
+	"os/exec"
 	"strconv"
 
 	"github.com/alicebob/sqlittle"
@@ -31,6 +32,7 @@ type opReq struct {
 	FailMode string   `json:"fail_mode,omitempty"`
 	LockFail bool     `json:"lock_fail,omitempty"`
 	NoLock   bool     `json:"no_lock,omitempty"` // low level op inside an explicit rlock ... runlock bracket
+	Args     []string `json:"args,omitempty"`   // op "exec": run this command (another process acting on the file)
 	Off      int64    `json:"off,omitempty"`    // op "patch": write Hex at this file offset
 	Hex      string   `json:"hex,omitempty"`
 	Digest   bool     `json:"digest,omitempty"` // report sha1 of each row instead of the values
@@ -392,6 +394,17 @@ func cmdOps(args []string) int {
 		var kept *handle
 		for i := range b.Ops {
 			r := &b.Ops[i]
+			if r.Op == "exec" {
+				// environment step: another process (real SQLite) acts on the file, synchronously
+				res := opRes{ID: r.ID, Op: r.Op}
+				out, err := exec.Command(r.Args[0], r.Args[1:]...).CombinedOutput()
+				res.Extra = string(out)
+				if err != nil {
+					res.Err = err.Error()
+				}
+				enc.Encode(res)
+				continue
+			}
 			if r.Op == "patch" {
 				// environment step: overwrite bytes of the database file (another writer's effect)
 				res := opRes{ID: r.ID, Op: r.Op}
